@@ -173,7 +173,7 @@ CHECKS.update({
 CHECKS.update({
     "C12": ("exploration",
             "exhaustive enumeration of transaction subsets x views x output formats through the real analyser and all renderers; the HTML is decoded with html.parser + json and compared with the analysed data; printed figures compared with reference bucket sums",
-            "Every subset of <=3 (quick) / <=4 (thorough) of 23 adversarial transactions (colliding merchant ids, </script>, quotes, backslashes, placeholder text, braces, "
+            "Every subset of <=3 (quick) / <=4 (thorough) of 25 adversarial transactions (three-decimal amounts, colliding merchant ids, </script>, quotes, backslashes, placeholder text, braces, "
             "non-ASCII, refunds, negative income, transfers, investment, zero-net merchant, two special tags on one transaction, a name equal to a suffixed id, </SCRIPT> in other spellings, falsy and date-valued extra fields) with and without views is rendered as HTML (embedded and separate files), "
             "JSON, Markdown (verbosity 0-2), text summary and views summary; no renderer may raise, every printed income/spending/credits/transfer/cash-flow figure must equal "
             "the analysed one at that format's precision, and the decoded HTML payload must contain every merchant and every transaction exactly once with identical fields and "
